@@ -368,7 +368,14 @@ def run(chk):
         # ... or it searches piece by piece and carries the last character over
         has_last = any(isinstance(n, ast.Compare) and any(isinstance(c, ast.Constant) and c.value == b"\r" for c in ast.walk(n)) for n in walk_no_nested(f.node))
         has_find = any(isinstance(n, ast.Call) and isinstance(n.func, ast.Attribute) and n.func.attr == "find" and n.args and isinstance(n.args[0], ast.Constant) and n.args[0].value == b"\r\n" for n in walk_no_nested(f.node))
-        r4.expect(has_last and has_find, "_readline: piece-wise search for CR LF plus the carried last character (recognised straddle idiom)", "_readline:straddle-idiom", "_readline no longer combines the per-piece search for b'\\r\\n' with a carried last character: a CR LF cut between two pieces is missed", fn=f, node=f.node)
+        if has_last and has_find:
+            r4.ok("_readline: piece-wise search for CR LF plus the carried last character (recognised straddle idiom)")
+        elif not any(isinstance(x, (ast.Yield, ast.YieldFrom)) for n_ in readers for x in walk_no_nested(mod.functions[n_].node)):
+            # another way of finding a CR LF that is cut between two pieces: whether it works is decided by the
+            # segmentation rows (R6), which contain every cut of every short stream - CR | LF among them
+            r4.ok("_readline: a piece-wise search of another shape - the straddling CR LF is decided by the segmentation rows (C03.R6)")
+        else:
+            r4.undecided("_readline:straddle-idiom", "_readline searches piece by piece in a form the analysis does not recognise, and the segmentation rows are not evaluated for a lazy chunk source: whether a CR LF cut between two pieces is found is not decided")
 
     # ------------------------------------------------------------------ R5 binary safety of the sized reader
     r5 = chk.rule("C03.R5", "the sized value reader handles payload bytes by position only (slicing, len, append, join): no content-dependent operation")
